@@ -135,6 +135,41 @@ pub fn syntactic_family(tier: Tier) -> Vec<Item> {
         });
         out.push(Item { family: "types", program: RProgram { decls }, focus_decl: 2 });
     }
+    // identifiers that start with a keyword (continued by `_`, a digit or a letter), that are
+    // just underscores, and that contain digits: one well-typed program, two declaration orders
+    {
+        let v = |n: &str, t: RType| RVarDecl { name: n.into(), ty: t };
+        let decls = vec![
+            RDecl::Type { name: "type_t".into(), ty: arr(2, tname("int")) },
+            RDecl::Type { name: "of_".into(), ty: tname("type_t") },
+            RDecl::Proc {
+                name: "proc_p".into(),
+                params: vec![RParam { is_ref: true, name: "ref_x".into(), ty: tname("type_t") }, RParam { is_ref: false, name: "var_y".into(), ty: tname("int") }],
+                vars: vec![
+                    v("array_a", tname("int")),
+                    v("if_count", tname("int")),
+                    v("else1", tname("int")),
+                    v("while_", tname("int")),
+                    v("_", tname("int")),
+                    v("__x9", tname("int")),
+                    v("ifs", tname("int")),
+                    v("typeB", tname("of_")),
+                ],
+                body: vec![
+                    RStmt::Assign(vname("if_count"), bin(Op::Add, evar("var_y"), evar("else1"))),
+                    RStmt::Assign(vname("while_"), RExpr::Var(idx(vname("ref_x"), eint(0)))),
+                    RStmt::Assign(vname("array_a"), bin(Op::Mul, evar("_"), evar("__x9"))),
+                    RStmt::Assign(vname("ifs"), RExpr::Var(idx(vname("typeB"), eint(1)))),
+                    RStmt::If(bin(Op::Lst, evar("ifs"), evar("else1")), Arc::new(RStmt::Call("proc_p".into(), vec![evar("typeB"), evar("_")])), None),
+                ],
+            },
+            RDecl::Proc { name: "main".into(), params: vec![], vars: vec![v("int_", tname("type_t"))], body: vec![RStmt::Call("proc_p".into(), vec![evar("int_"), eint(1)])] },
+        ];
+        out.push(Item { family: "names", program: RProgram { decls: decls.clone() }, focus_decl: 2 });
+        let mut d2 = decls;
+        d2.swap(2, 3);
+        out.push(Item { family: "names", program: RProgram { decls: d2 }, focus_decl: 3 });
+    }
     // G1: whole programs over tiny pools, every order of declarations
     let (p, dp) = g1_pools();
     let mut en5 = Enumerator::new(p);
@@ -150,7 +185,9 @@ pub fn syntactic_family(tier: Tier) -> Vec<Item> {
 // ------------------------------------------------------------------------------------------
 use crate::gen::refsem;
 
-fn rich_main_body() -> Vec<RStmt> {
+fn rich_main_body(shadow: bool) -> Vec<RStmt> {
+    let m1 = RExpr::Var(idx(vname("m"), eint(1)));
+    let r_args = if shadow { vec![evar("m"), evar("m"), m1] } else { vec![m1] };
     vec![
         RStmt::Assign(vname("i"), eint(0)),
         RStmt::While(
@@ -161,7 +198,7 @@ fn rich_main_body() -> Vec<RStmt> {
                 RStmt::If(
                     bin(Op::Equ, RExpr::Var(idx(vname("a"), eint(0))), evar("j")),
                     Arc::new(RStmt::Call("q".into(), vec![bin(Op::Mul, evar("i"), evar("j")), evar("j"), evar("a")])),
-                    Some(Arc::new(RStmt::Call("r".into(), vec![RExpr::Var(idx(vname("m"), eint(1)))]))),
+                    Some(Arc::new(RStmt::Call("r".into(), r_args))),
                 ),
                 RStmt::Assign(vname("i"), bin(Op::Add, evar("i"), eint(1))),
             ])),
@@ -212,13 +249,17 @@ fn scenario_decls(shadow: bool, alias: bool) -> Vec<RDecl> {
         r_body.push(RStmt::Assign(vname("i"), RExpr::Var(idx(vname("int"), eint(1)))));
         r_body.push(RStmt::Assign(vname("q"), bin(Op::Add, evar("i"), RExpr::Var(idx(vname("v"), evar("q"))))));
     }
-    d.push(RDecl::Proc {
-        name: "r".into(),
-        params: vec![RParam { is_ref: true, name: "a".into(), ty: tname(if alias { "B" } else { "A" }) }],
-        vars: r_vars,
-        body: r_body,
-    });
-    d.push(main_with(rich_main_body()));
+    let r_type = if alias { "B" } else { "A" };
+    let mut r_params = vec![RParam { is_ref: true, name: "a".into(), ty: tname(r_type) }];
+    if shadow {
+        // a parameter named like its own type, in front of another parameter of that type
+        // (parameter types never see parameters)
+        r_params.insert(0, RParam { is_ref: true, name: "n".into(), ty: tname("M") });
+        r_params.insert(0, RParam { is_ref: true, name: "M".into(), ty: tname("M") });
+        r_body.push(RStmt::Assign(vname("i"), RExpr::Var(idx(idx(vname("M"), eint(1)), eint(0)))));
+    }
+    d.push(RDecl::Proc { name: "r".into(), params: r_params, vars: r_vars, body: r_body });
+    d.push(main_with(rich_main_body(shadow)));
     d
 }
 
